@@ -57,6 +57,7 @@ type Features struct {
 	NoManifestDelete bool   // DELETE /manifests/<digest> answers 405
 	NoBlobDelete     bool   // DELETE /blobs/<digest> answers 405
 	HeadNoDigest     bool   // manifest HEAD omits Docker-Content-Digest
+	HonourAccept     bool   // content negotiation as distribution does it: a manifest GET/HEAD whose Accept header names neither the stored media type nor */* is answered 404 MANIFEST_UNKNOWN
 	Referrers        bool   // referrers API implemented
 	ReferrersPage    int    // page size of the referrers API (0 = all)
 	ReferrersFilter  bool   // server-side artifactType filtering (OCI-Filters-Applied)
